@@ -183,9 +183,11 @@ def tags_for(dims, d, boundary):
 
 # ----------------------------------------------------------------------------------------- implementation set-up
 
-def make_op(dims, f, form="list"):
+def make_op(dims, f, form="list", testing=False):
     import numpy as np
-    from sparseSpACE.GridOperation import UncertaintyQuantification
+    from sparseSpACE.GridOperation import UncertaintyQuantification, UncertaintyQuantificationTesting
+    if testing:
+        UncertaintyQuantification = UncertaintyQuantificationTesting  # noqa: N806  (public subclass: multi-solution queries)
     specs = [tuple(dm["spec"]) for dm in dims]
     if form == "single":
         distributions = specs[0]
@@ -683,8 +685,17 @@ def run_synth_mom(ctx, drv, case):
         a2 = np.array(m2) if case["as_array"] else list(m2)
         Ei, Vi = UncertaintyQuantification.moments_to_expectation_variance(a1, a2)
         Ei, Vi = [float(x) for x in Ei], [float(x) for x in Vi]
+        # object history: the same argument objects are asked again; the query must not have changed them
+        args_after = ([float(x) for x in a1], [float(x) for x in a2])
+        Ei2, Vi2 = UncertaintyQuantification.moments_to_expectation_variance(a1, a2)
+        Ei2, Vi2 = [float(x) for x in Ei2], [float(x) for x in Vi2]
     except Exception as ex:  # noqa: BLE001
         ctx.violation("moments-exception", {"synthetic": True}, case, {"exception": repr(ex)[:300]})
+        return False
+    if args_after != (m1, m2) or (Ei2, Vi2) != (Ei, Vi):
+        ctx.violation("moments-query-not-repeatable", {"synthetic": True, "as_array": case["as_array"]}, case,
+                      {"clause": "E and Var of the same moments are the same on every query; the query does not modify its arguments",
+                       "arguments_after_first_query": args_after, "first": {"E": Ei, "V": Vi}, "second": {"E": Ei2, "V": Vi2}})
         return False
     rm = drv.ask("mom %s %s" % (fvec(m1), fvec(m2)))
     try:
@@ -721,6 +732,96 @@ def gen_synth_mom(ctx):
         m1.append(ex)
         m2.append(ex * ex + v)
     return {"kind": "synthmom", "mom1": m1, "mom2": m2, "as_array": r.random() < 0.5}
+
+
+# ----------------------------------------------------------------------------------------- case kind 2d: grid options, uniform
+
+def run_options_case(ctx, drv, case):
+    """Uniform inputs, every grid option (boundary, modified_basis) through the INSTANCE route (constructor -> set_grid /
+    compute_1D_quad_weights): the weighted weights equal the weights of the UNWEIGHTED instance built with the same options,
+    divided by the interval length (boundary off and plain basis: the interior weights renormalised, as proved in
+    uniform_eq_trap_noboundary).  The modified basis is not modelled in Lean: oracle only."""
+    import numpy as np
+    from sparseSpACE.Grid import GlobalTrapezoidalGridWeighted, GlobalTrapezoidalGrid
+    from sparseSpACE.Function import FunctionCustom
+    dims, boundary, modified = case["dims"], case["boundary"], case["modified_basis"]
+    ndim = len(dims)
+    ok = True
+    f = FunctionCustom(lambda x: [0.0], output_dim=1)
+    op, a, b = make_op(dims, f, case.get("form", "list"))
+    tags = {"family": "Uniform", "support": "own", "boundary": bool(boundary), "modified_basis": bool(modified),
+            "shared_other_domain": False}
+    try:
+        with quiet():
+            gw = GlobalTrapezoidalGridWeighted(a, b, op, boundary=boundary, modified_basis=modified)
+            gu = GlobalTrapezoidalGrid(a, b, boundary=boundary, modified_basis=modified)
+            pts_all = []
+            for d in range(ndim):
+                pts = [float(a[d]), float(b[d])]
+                for i in case["splits"][d]:
+                    i = i % (len(pts) - 1)
+                    pts.insert(i + 1, float(gw.get_mid_point(pts[i], pts[i + 1], d)))
+                pts_all.append(pts)
+            levels = [[0] * len(p) for p in pts_all]
+            gw.set_grid(pts_all, levels)
+            gu.set_grid(pts_all, levels)
+            ww = [[float(x) for x in gw.weights[d]] for d in range(ndim)]
+            wu = [[float(x) for x in gu.weights[d]] for d in range(ndim)]
+            w1 = [[float(x) for x in gw.compute_1D_quad_weights(pts_all[d], a[d], b[d], d, grid_levels_1D=levels[d])] for d in range(ndim)]
+            u1 = [[float(x) for x in gu.compute_1D_quad_weights(pts_all[d], a[d], b[d], d, grid_levels_1D=levels[d])] for d in range(ndim)]
+    except Exception as ex:  # noqa: BLE001
+        ctx.violation("weights-exception", tags, case, {"exception": repr(ex)[:300]})
+        return False
+    ctx.count("options_boundary_%s_modified_%s" % (boundary, modified))
+    for d in range(ndim):
+        L = float(b[d] - a[d])
+        n = len(pts_all[d])
+
+        def expect(u, sliced):
+            if boundary or modified:
+                return [x / L for x in u]
+            inner = u if sliced else u[1:-1]
+            si = sum(inner)
+            e = [x / si for x in inner]
+            return e if sliced else [0.0] + e + [0.0]
+        bad = None
+        for name, got, want in (("set_grid(...).weights", ww[d], expect(wu[d], True)),
+                                ("compute_1D_quad_weights", w1[d], expect(u1[d], False))):
+            if len(got) != len(want) or any(abs(x - y) > 1e-12 for x, y in zip(got, want)):
+                bad = {"clause": "uniform: weighted weights = unweighted weights of the same options / (b-a)", "route": name,
+                       "dim_index": d, "points": pts_all[d], "weighted": got, "unweighted_over_length": want}
+                break
+        if bad is None and abs(sum(ww[d]) - 1.0) > 1e-9:
+            bad = {"clause": "weights sum to 1", "dim_index": d, "points": pts_all[d], "weighted": ww[d], "sum": sum(ww[d])}
+        if bad is None and not modified and min(ww[d]) < -1e-12:
+            bad = {"clause": "weights are non-negative", "dim_index": d, "points": pts_all[d], "weighted": ww[d]}
+        if modified and min(ww[d]) < -1e-12:
+            ctx.count("options_modified_basis_has_negative_weight")   # by construction of the modified basis; not a clause
+        if modified and n >= 4 and any(abs(x - y) > 1e-9 for x, y in
+                                       zip(ww[d], [v / sum(trap_weights(pts_all[d])[1:-1]) for v in trap_weights(pts_all[d])[1:-1]])):
+            ctx.count("options_modified_differs_from_plain")
+        if bad is not None:
+            ok = False
+            ctx.violation("uniform-trap" if "uniform" in bad["clause"] else "weights-sum" if "sum" in bad["clause"] else "weights-nonneg",
+                          tags, case, bad)
+            break
+    return ok
+
+
+def gen_options_case(ctx):
+    r = ctx.rng
+    ndim = r.choice([1, 1, 2])
+    dims = []
+    for _ in range(ndim):
+        a = r.randint(-8, 8) / 4
+        dims.append({"spec": ["Uniform"], "a": a, "b": a + r.randint(1, 24) / 4})
+    boundary, modified = r.choice([(True, False), (False, False), (False, True), (False, True)])
+    splits = []
+    for d in range(ndim):
+        n = r.choice([3, 4, 4, 5, 6, 8, 12, 20]) if not boundary else r.choice([2, 3, 4, 6, 12])
+        splits.append([r.randrange(k + 1) for k in range(n - 2)])
+    form = r.choice(["list", "str", "single"])
+    return {"kind": "options", "dims": dims, "boundary": boundary, "modified_basis": modified, "form": form, "splits": splits}
 
 
 # ----------------------------------------------------------------------------------------- case kind 3: moments
@@ -830,7 +931,7 @@ def run_moments_case(ctx, drv, case):
     f = build_model(ret, g, c, e, k)
     ctx.count("moments_model_return_" + ret)
     ctx.count("moments_setup_" + case.get("setup", "evf"))
-    op, a, b = make_op(dims, f, case.get("form", "list"))
+    op, a, b = make_op(dims, f, case.get("form", "list"), testing=bool(case.get("storage")))
     # sharing as the implementation really does it (none once _prepare_distributions keys by domain)
     impl_reuse = [min(j for j in range(d + 1) if op.distributions[j] is op.distributions[d]) for d in range(ndim)]
     anyshared = any(shared_other_domain(dims, d) and impl_reuse[d] != d for d in range(ndim))
@@ -848,10 +949,30 @@ def run_moments_case(ctx, drv, case):
         with quiet():
             ci = SpatiallyAdaptiveSingleDimensions2(a, b, operation=op, norm=2, use_volume_weighting=True,
                                                     grid_surplusses=op.get_grid())
+            storage = {} if case.get("storage") else None
             ci.performSpatiallyAdaptiv(1, case["lmax"], ErrorCalculatorSingleDimVolumeGuided(), tol=0,
-                                       max_evaluations=case["max_evaluations"], print_output=False)
+                                       max_evaluations=case["max_evaluations"], print_output=False, solutions_storage=storage)
+            result_before = [float(x) for x in op.get_result()]
+            storage_before = {n: [float(x) for x in v] for n, v in storage.items()} if storage is not None else None
             E, V = op.calculate_expectation_and_variance(ci)
             E, V = [float(x) for x in E], [float(x) for x in V]
+            # object history: the same operation object is asked again (and again); its stored result must not move
+            history = [("query 1", E, V, [float(x) for x in op.get_result()])]
+            for q in range(case.get("repeat", 0)):
+                if q == 1:
+                    En_, Vn_ = op.calculate_expectation_and_variance(ci, use_combiinstance_solution=False)  # interleaved
+                Eq, Vq = op.calculate_expectation_and_variance(ci)
+                history.append(("query %d" % (q + 2), [float(x) for x in Eq], [float(x) for x in Vq],
+                                [float(x) for x in op.get_result()]))
+            multi = []
+            if storage is not None:
+                for q in range(2):
+                    multi.append([(int(n), [float(x) for x in e_], [float(x) for x in v_])
+                                  for n, e_, v_ in op.calculate_multiple_expectation_and_variance(storage)])
+                storage_after = {n: [float(x) for x in v] for n, v in storage.items()}
+                Es, Vs = op.calculate_expectation_and_variance(ci)
+                history.append(("query after the multi-solution queries", [float(x) for x in Es], [float(x) for x in Vs],
+                                [float(x) for x in op.get_result()]))
             pts, W = ci.get_points_and_weights()
             En, Vn = op.calculate_expectation_and_variance(ci, use_combiinstance_solution=False)
             En, Vn = [float(x) for x in En], [float(x) for x in Vn]
@@ -859,6 +980,23 @@ def run_moments_case(ctx, drv, case):
         import traceback
         viol("shared-distribution-object" if anyshared and "negative weight" in str(ex) else "moments-exception",
              {"exception": repr(ex)[:300], "trace": traceback.format_exc()[-800:]})
+        return False
+    # ---- oracle: every query of the same refined grid gives the same E and Var and leaves the stored moments alone
+    same = lambda u, v: len(u) == len(v) and all(x == y or (math.isnan(x) and math.isnan(y)) for x, y in zip(u, v))
+    ctx.count("moments_repeated_queries", len(history) - 1)
+    bad_hist = [h[0] for h in history if not (same(h[1], E) and same(h[2], V) and same(h[3], result_before))]
+    if storage is not None:
+        ctx.count("moments_storage_route")
+        if not all(same(storage_after[n], storage_before[n]) for n in storage_before) or multi[0] != multi[1]:
+            bad_hist.append("calculate_multiple_expectation_and_variance twice on one solutions_storage")
+        elif multi[0] and storage_before and not (same(multi[0][-1][1], E) and same(multi[0][-1][2], V)):
+            bad_hist.append("last stored solution vs direct query")
+    if bad_hist:
+        viol("moments-query-not-repeatable",
+             {"clause": "E/Var laws hold on every query of one refined grid; a query does not change the combined moments",
+              "differs": bad_hist, "get_result_before": result_before,
+              "history": [{"at": h[0], "E": h[1], "V": h[2], "get_result": h[3]} for h in history][:4],
+              "multi": [m[-1:] for m in multi]})
         return False
     W = [float(x) for x in W]
     if any(not math.isfinite(x) for x in W):
@@ -976,12 +1114,13 @@ def gen_moments_case(ctx):
             "lmax": r.choice([2, 2, 3]),
             "ret": r.choice(["list", "list", "tuple", "ndarray", "ndarray", "class_ndarray", "concat",
                              "s_float", "s_npfloat", "s_list", "s_ndarray"]),
-            "setup": r.choice(["evf", "evf", "moments12", "update"])}
+            "setup": r.choice(["evf", "evf", "moments12", "update"]),
+            "repeat": r.choice([1, 2, 2, 3]), "storage": r.random() < 0.4}
 
 
 # ----------------------------------------------------------------------------------------- entry points
 
-RUNNERS = {"tree": run_tree_case, "synthmid": run_synth_mid, "synthw": run_synth_w, "synthmom": run_synth_mom, "moments": run_moments_case}
+RUNNERS = {"tree": run_tree_case, "synthmid": run_synth_mid, "synthw": run_synth_w, "synthmom": run_synth_mom, "options": run_options_case, "moments": run_moments_case}
 
 
 def run_case(ctx, drv, case):
@@ -1027,7 +1166,7 @@ def run(ctx):
             case = gen(ctx)
             ok = run_case(ctx, drv, case)
             ctx.count("kind_" + kind)
-            if kind in ("tree", "moments"):
+            if kind in ("tree", "moments", "options"):
                 for dm in case["dims"]:
                     ctx.count("dim_%s_%s" % (family_tag(dm), support_tag(dm)))
                 ctx.count("ndim_%d" % len(case["dims"]))
@@ -1039,7 +1178,8 @@ def run(ctx):
         return True
 
     if phase("tree", gen_tree_case, n_tree, b_tree) and phase("synthmid", gen_synth_mid, n_synth, b_synth) \
-            and phase("synthw", gen_synth_w, n_synth, b_synth + 5) and phase("synthmom", gen_synth_mom, n_synth, b_synth + 8):
+            and phase("synthw", gen_synth_w, n_synth, b_synth + 5) and phase("synthmom", gen_synth_mom, n_synth, b_synth + 8) \
+            and phase("options", gen_options_case, n_synth // 2, b_synth + 12):
         phase("moments", gen_moments_case, n_mom, b_mom)
 
 
